@@ -1,7 +1,7 @@
 (* C05 — Move, copy and recursive remove never destroy unrelated data (reference semantics and MemoryFS model: move, copy, removetree, movedir onto a fresh destination; copydir and movedir with directory merges - success or failure - in every non-degenerate case, on NUL-free states). *)
 From Coq Require Import List NArith ZArith Bool Arith.
 From PyFS Require Import Base.PyStr Base.Outcome Path.PathModel Path.PathSpec FS.Tree FS.Monad FS.Mode FS.Base
-     FS.Mem FS.Ops FS.Ref FS.Agree FS.Props FS.Wf FS.PropsProofs FS.RefineWalkLemmasBfs FS.RefineWalkPreserved.
+     FS.Mem FS.Ops FS.Ref FS.Agree FS.Props FS.Wf FS.PropsProofs FS.RefineWalkLemmasBfs FS.RefineWalkPreserved FS.Props2 FS.Props2Proofs.
 Import ListNotations.
 
 Theorem C05_ref_preserved_move_copy_removetree : forall o t t',
@@ -60,3 +60,82 @@ Theorem C05_mem_preserved_movedir :
          (is_ok (snd (mem_run (OMovedir src dst create pt) s))) = true.
 Proof. exact @mem_preserved_movedir. Qed.
 Print Assumptions C05_mem_preserved_movedir.
+
+(* ---- the stronger predicate preserved2 (FS/Props2.v): a destination may only hold its old bytes or the bytes of the
+   corresponding source file, a moved source may be absent only when its bytes are at the destination; this is the predicate
+   the harness applies to the real backends ---- *)
+
+
+(* ================================================================== *)
+(* the stronger predicate preserved2 (FS/Props2.v): a destination file is not simply exempt,
+   it may only hold its old bytes or the bytes of the corresponding source file; a file may
+   vanish only below a removed directory, or as a moved source whose bytes are at its
+   destination; a transfer of a resource onto itself changes nothing *)
+(* ================================================================== *)
+Theorem C05_preserved2_implies_preserved : forall before after o ok,
+  wf before -> preserved2 before after o ok = true -> preserved before after o ok = true.
+Proof. exact preserved2_implies_preserved. Qed.
+Print Assumptions C05_preserved2_implies_preserved.
+
+Theorem C05_preserved2_self_keeps_everything : forall before after o ok,
+  wf before -> self_transfer o = true -> preserved2 before after o ok = true ->
+  all_files_kept before after (fun _ => false) = true.
+Proof. exact preserved2_self_keeps_everything. Qed.
+Print Assumptions C05_preserved2_self_keeps_everything.
+
+Theorem C05_ref_preserved2_move_copy_removetree : forall o t t',
+  wf t -> is_mcr o = true -> rs_tree (ref_run o t) = Some t' ->
+  preserved2 t t' o (match rs_res (ref_run o t) with ROk _ => true | _ => false end) = true.
+Proof. exact ref_preserved2_move_copy_removetree. Qed.
+Print Assumptions C05_ref_preserved2_move_copy_removetree.
+
+Theorem C05_mem_preserved2_move_copy_removetree : forall o s,
+  wf s -> is_mcr o = true ->
+  preserved2 s (fst (mem_run o s)) o (is_ok (snd (mem_run o s))) = true.
+Proof. exact mem_preserved2_move_copy_removetree. Qed.
+Print Assumptions C05_mem_preserved2_move_copy_removetree.
+
+Theorem C05_ref_preserved2_movedir_fresh : forall s d c pt a b t t',
+  wf t -> rpath s = inl a -> rpath d = inl b -> lookup t b = None ->
+  rs_tree (ref_run (OMovedir s d c pt) t) = Some t' ->
+  preserved2 t t' (OMovedir s d c pt)
+            (match rs_res (ref_run (OMovedir s d c pt) t) with ROk _ => true | _ => false end) = true.
+Proof. exact ref_preserved2_movedir_fresh. Qed.
+Print Assumptions C05_ref_preserved2_movedir_fresh.
+
+Theorem C05_mem_preserved2_movedir_fresh : forall src dst create pt s cs cd,
+  wf s -> rpath src = inl cs -> rpath dst = inl cd -> lookup s cd = None ->
+  preserved2 s (fst (mem_run (OMovedir src dst create pt) s)) (OMovedir src dst create pt)
+            (is_ok (snd (mem_run (OMovedir src dst create pt) s))) = true.
+Proof. exact mem_preserved2_movedir_fresh. Qed.
+Print Assumptions C05_mem_preserved2_movedir_fresh.
+
+Theorem C05_mem_preserved2_copydir :
+  forall (src dst : str) (create pt : bool) (s : node) (a b : list str),
+       wf s ->
+       nn s ->
+       rpath src = inl a ->
+       rpath dst = inl b ->
+       list_prefix b a = false ->
+       preserved2 s (fst (mem_run (OCopydir src dst create pt) s)) (OCopydir src dst create pt)
+         (is_ok (snd (mem_run (OCopydir src dst create pt) s))) = true.
+Proof. exact @mem_preserved2_copydir. Qed.
+Print Assumptions C05_mem_preserved2_copydir.
+
+Theorem C05_mem_preserved2_movedir :
+  forall (src dst : str) (create pt : bool) (s : node) (a b : list str),
+       wf s ->
+       nn s ->
+       rpath src = inl a ->
+       rpath dst = inl b ->
+       list_prefix b a = false ->
+       preserved2 s (fst (mem_run (OMovedir src dst create pt) s)) (OMovedir src dst create pt)
+         (is_ok (snd (mem_run (OMovedir src dst create pt) s))) = true.
+Proof. exact @mem_preserved2_movedir. Qed.
+Print Assumptions C05_mem_preserved2_movedir.
+
+(* the seeded "truncate on copydir onto itself" change: invisible to preserved, caught by preserved2 *)
+Example C05_trunc_copydir_self :
+  (preserved Examples2.t0 Examples2.t0_trunc Examples2.o_copydir_self true,
+   preserved2 Examples2.t0 Examples2.t0_trunc Examples2.o_copydir_self true) = (true, false).
+Proof. vm_compute. reflexivity. Qed.
